@@ -30,7 +30,9 @@ MainDone == \A t \in Tag : t # 0 => tg[t].hs \in {"none", "reaped", "detached"}
 UserStep(w) ==
   \E t \in D : At(w, t, "user") /\
     LET tag == th[t].tag IN
-    \/ "create" \in Ops /\ CanCreate /\ nD < MaxD /\ nS < MaxS /\ \E f \in Flags : UCreateCall(w, tag, NextTag, f)
+    \/ /\ "create" \in Ops /\ CanCreate /\ (nD < MaxD \/ freeD[w] # <<>>)
+       /\ \E f \in Flags : /\ (nS < MaxS \/ (IF f = 0 THEN freeS[w] # <<>> ELSE flS[w][17] # <<>>))
+                            /\ UCreateCall(w, tag, NextTag, f)
     \/ "join" \in Ops /\ \E c \in Children(tag) : UJoinCall(w, tag, c)
     \/ "tryjoin" \in Ops /\ \E c \in Children(tag) : UTryJoinCall(w, tag, c)
     \/ "detach" \in Ops /\ \E c \in Children(tag) : UDetachCall(w, tag, c)
@@ -58,18 +60,23 @@ LibStep(w) ==
   \/ \E j, t \in D, b \in {0, 1} : JoinChk(w, j, t, b) \/ TryJoinChk(w, j, t, b)
   \/ \E t \in D : JoinReap(w, t, th[t].res)
 
-MNext == \E w \in W : UserStep(w) \/ LibStep(w)
+Finished == \E w \in W : cur[w] # 0 /\ th[cur[w]].tag = 0 /\ th[cur[w]].pc.k = "done"
+AllReaped == \A t \in Tag : t # 0 /\ tg[t].hs # "none" => tg[t].reaped = 1
+\* explicit stuttering in the completed state, so that TLC's deadlock check is exactly
+\* "no stuck state": a state without successor in which the program has not completed
+Terminated == Finished /\ AllReaped /\ UNCHANGED corevars
+MNext == (\E w \in W : UserStep(w) \/ LibStep(w)) \/ Terminated
 MSpec == MInit /\ [][MNext]_corevars
 \* fairness for liveness: every worker keeps taking steps when it can
 MFairSpec == MSpec /\ \A w \in W : WF_corevars(UserStep(w) \/ LibStep(w))
 
-Finished == \E w \in W : cur[w] # 0 /\ th[cur[w]].tag = 0 /\ th[cur[w]].pc.k = "done"
-\* no stuck state: whenever nothing is enabled the program has completed
-NoStuck == (~ENABLED MNext) => Finished
+\* no stuck state: whenever nothing is enabled, the main thread is done and every thread
+\* ever created has run, finished and been reaped
+NoStuck == (~ENABLED MNext) => (Finished /\ AllReaped)
 Termination == <>Finished
 \* at the end every record and stack ever obtained is on exactly one free list
 QuiescentLedger ==
-  Finished /\ (\A w \in W : Idle(w) \/ th[cur[w]].tag = 0) =>
+  Finished /\ AllReaped /\ (\A w \in W : cb[w].k = "none" /\ got[w] = 0 /\ (cur[w] = 0 \/ th[cur[w]].tag = 0)) =>
      /\ \A d \in 2..nD : th[d].st = "free" /\ Cardinality({w \in W : d \in SeqSet(freeD[w])}) = 1
      /\ \A s \in 1..nS : stk[s].st = "free"
      /\ \A t \in Tag : t # 0 /\ tg[t].hs # "none" => tg[t].ran = 1 /\ tg[t].reaped = 1
